@@ -29,7 +29,9 @@ intro = ("\nEach change below was written by a fresh sub-agent that saw only the
          "patch in a scratch worktree (`--in-repo`: in /repo itself, `git apply` ... `git checkout -- .`) and runs the registered quick check.\n\n")
 body = head + intro + table
 if head in s:
-    s = s[:s.index(head)] + body
+    i = s.index(head)
+    j = s.find("\n## ", i + 5)
+    s = s[:i] + body + (s[j:] if j > 0 else "")
 else:
     s = s.rstrip("\n") + "\n\n---------------------------------------------------------------------------\n\n" + body
 open(p, "w").write(s)
